@@ -657,6 +657,11 @@ class NinjaWindowsWords(Bounded):
         for sfx in self.SUFFIXES:
             for st in self.STRINGS:
                 yield {'suffix': sfx, 'string': st}
+        # one word joined from a string and a path (`'--from=' + file`): the pieces are quoted one by one
+        for sfx in self.SUFFIXES:
+            for st in ('--from=', 'two words=', 'a"b='):
+                yield {'suffix': sfx, 'string': st, 'joined': True,
+                       'adjacent_quoted_pieces': any(c in st for c in ' "')}
 
     def native_check(self, case, raw):
         import io
@@ -672,11 +677,16 @@ class NinjaWindowsWords(Bounded):
             p = WindowsPath(raw['suffix'], Root.srcdir)
         except ValueError:
             return None
-        out.write_shell([raw['string'], p, 'last'], NS.Syntax.shell)
+        if raw.get('joined'):
+            from bfg9000.safe_str import jbos
+            out.write_shell(['first', jbos(raw['string'], p), 'last'], NS.Syntax.shell)
+            want = ['first', raw['string'] + srcdir + '\\' + p.suffix.replace('/', '\\'), 'last']
+        else:
+            out.write_shell([raw['string'], p, 'last'], NS.Syntax.shell)
+            want = [raw['string'], srcdir + '\\' + p.suffix.replace('/', '\\'), 'last']
         text = out.stream.getvalue()
         line = _expand(text, lambda name: {'srcdir': srcdir}[name])
         got = crt_args(line)
-        want = [raw['string'], srcdir + '\\' + p.suffix.replace('/', '\\'), 'last']
         if got != want:
             return self.fail(case, raw, 'crt_reads_back_exactly_the_words', written=text, expanded=line, got=got, expected=want)
         return True
